@@ -72,6 +72,8 @@ def cases() -> Any:
         # all (overlapping) executions carry the SAME task id: a redelivery, a message kicked twice
         "same_id": st.sampled_from([False, False, False, True]),
         "shutdown_early": st.sampled_from([False, False, True]),
+        # the task function waits on a future only it references strongly, and a garbage collection runs meanwhile
+        "parked": st.sampled_from([False, False, False, True]),
     }))
 
 
@@ -126,7 +128,7 @@ def run_case(c: Dict[str, Any]) -> Outcome:
 
             b.add_middlewares(FailingOnError())
         kind = {"ret": "ret", "raise": "raise", "base": "base", "timeout": "ret", "nores": "nores", "badstr": "badstr", "falsy": "falsy"}[c["outcome"]]
-        mod, task, src = dg.build(nodes, tdeps, {"kind": kind, "cleanup": c.get("cleanup", 0)}, LOG)
+        mod, task, src = dg.build(nodes, tdeps, {"kind": kind, "cleanup": c.get("cleanup", 0), "parked": bool(c.get("parked"))}, LOG)
         b.register_task(task, task_name="t")
         r = Receiver(b, executor=wh.Inline(), max_async_tasks=10, run_startup=False, propagate_exceptions=c["propagate"],
                      ack_type=AcknowledgeType(c["ack_type"]))
@@ -140,6 +142,8 @@ def run_case(c: Dict[str, Any]) -> Outcome:
             if via != "receiver":
                 await AsyncKicker("t", b, labels).with_task_id("id0" if c.get("same_id") else f"id{k}").kiq(k, slp)
                 if via == "inmemory":
+                    if c.get("parked"):
+                        await asyncio.sleep(slp + 0.3)       # the client does something else meanwhile: nobody is waiting on the execution
                     if c.get("shutdown_early") and k == 0:
                         # the application shuts the broker down while executions are still in flight (its shutdown hooks run, nothing more);
                         # they finish - teardown included - undisturbed
